@@ -179,9 +179,15 @@ def run(ctx):
             x = np.asarray([[rng.gauss(0, 1) for _ in range(d)] for _ in range(n)])
             cov = kern(ls_)
             jitter = 1e-6
-            s2 = max(sigma ** 2, jitter)
             K = np.asarray(cov(x, x), dtype=float)
-            for gp_type, lm in (("full_nystroem", None), (None, None), ("sparse_nystroem", x[: max(4, n // 2)] + 0.01)):
+            lm_sparse = x[: max(4, n // 2)] + 0.01
+            # history: the first two settings are run again on the SAME cells, inducing points, kernel and jitter with other noise
+            # levels, back and forth - the factor must follow the noise level of the call at hand
+            runs = [(g_, l_, sigma) for g_, l_ in (("full_nystroem", None), (None, None), ("sparse_nystroem", lm_sparse))]
+            if trial < 2:
+                runs += [("sparse_nystroem", lm_sparse, s_) for s_ in (0.3 if sigma == 0 else 0, sigma, 1.0)] + [("full_nystroem", None, 0.3 if sigma == 0 else 0)]
+            for gp_type, lm, sigma in runs:
+                s2 = max(sigma ** 2, jitter)
                 if lm is None:
                     target_mat = K + s2 * np.eye(n)
                 else:
@@ -189,7 +195,8 @@ def run(ctx):
                     Wm = np.asarray(cov(lm, lm), dtype=float) + s2 * np.eye(lm.shape[0])
                     target_mat = C @ np.linalg.solve(Wm, C.T)
                 ev, evec = np.linalg.eigh((target_mat + target_mat.T) / 2)
-                for rank in [1, 2, 3, n - 1, 0.5, 0.9, 0.99]:
+                # (a fraction may arrive as a NumPy float64 scalar, e.g. an element of np.linspace: it is a fraction all the same)
+                for rank in [1, 2, 3, n - 1, 0.5, 0.9, 0.99, np.float64(0.9), np.float64(0.5)]:
                     if isinstance(rank, int) and lm is not None and rank >= lm.shape[0]:
                         continue
                     o = enc.outcome(lambda: compute_L(x, cov, gp_type=gp_type, landmarks=lm, rank=rank, sigma=sigma, jitter=jitter))
